@@ -218,9 +218,21 @@ theorem toMag_mul {T : Transc K} (hT : T.Lawful) {x k m : K} (hk : 0 < k) (h : t
   obtain ⟨hx, rfl⟩ := toMag_ok h
   rw [toMag_pos (mul_pos hk hx), hT.log10_mul _ _ hk hx]; congr 1; ring
 
-/-- `log10` strictly increasing on the positive numbers (true of the real `log10`; not a
-consequence of `Transc.Lawful`, whose laws are purely algebraic) -/
+/-- `log10` strictly increasing on the positive numbers (a consequence of `Transc.Lawful` through
+`pow10_strictMono`: `logMono_of_lawful`) -/
 def LogMono (T : Transc K) : Prop := ∀ x y : K, 0 < x → x < y → T.log10 x < T.log10 y
+
+/-- with `pow10_strictMono` among the laws, `LogMono` follows from `Transc.Lawful` -/
+theorem logMono_of_lawful {T : Transc K} (hT : T.Lawful) : LogMono T := by
+  intro x y hx hxy
+  by_contra hc
+  have hy : 0 < y := lt_trans hx hxy
+  have hle : T.pow10 (T.log10 y) ≤ T.pow10 (T.log10 x) := by
+    rcases lt_or_eq_of_le (not_lt.mp hc) with h1 | h1
+    · exact le_of_lt (hT.pow10_strictMono _ _ h1)
+    · rw [h1]
+  rw [hT.pow10_log10 _ hx, hT.pow10_log10 _ hy] at hle
+  exact absurd hxy (not_lt.mpr hle)
 
 theorem pow10_strictMono {T : Transc K} (hT : T.Lawful) (hm : LogMono T) {x y : K} (h : x < y) :
     T.pow10 x < T.pow10 y := by
